@@ -2,8 +2,8 @@ SPEC = {
     "id": "C13",
     "level": "proof",
     "lean_modules": ["PallasVerif.Props.C13"],
-    "required_theorems": ["forward_secure", "forward_secure_evolved", "future_derivable", "current_leaf_present", "material_under"],
-    "streams": [{"name": "kesfs", "quick": 28, "thorough": 420}],
+    "required_theorems": ["forward_secure", "forward_secure_evolved", "material_derive", "forward_secure_concrete", "future_derivable", "current_leaf_present", "material_under"],
+    "streams": [{"name": "kesfs", "quick": 20, "thorough": 420}],
     "rule": "a case = one complete evolution history: keygen (sum / compact sum alternating, depth cycling through 1..7, random non-zero seed) "
             "followed by update until the key refuses (2^d - 1 updates + the failing one); after every update the real key buffer is compared "
             "byte for byte with the model's and scanned at every byte offset for the seed of every tree node that derives an earlier period's "
